@@ -4,102 +4,132 @@
    denotation against which "executing the normalised document with the
    synthetic variables equals executing the original" is stated.
 
-   Reduction: a value is a variable, a variable-free literal (opaque, coerced
-   by [lit_coerce] = valueFromAST) or a composite containing variables (opaque,
-   never extracted); aliases and directives of a selection are one opaque
-   decoration; names and types are numbers.  The schema is three lookup
-   functions.  What an executor can observe of a document under variable
-   values [env] is its denotation [denote]: typed arguments by their coerced
-   value, everything else by its syntax plus the values of the variables that
-   occur in it.  No proofs here. *)
+   Syntax: values are variables, scalar literals, lists and input objects
+   (any of which may contain variables); a field has an alias, a name,
+   arguments, directives (each with arguments) and a sub-selection; inline
+   fragments and fragment spreads carry directives.  Names and types are
+   numbers.  The schema is lookup functions.  valueFromAST ([coerce]),
+   isValidLiteralValue ([lit_valid]), variable coercion ([var_coerce]) and
+   equality of printed values ([value_eqb]) are parameters.
+
+   What an executor can observe of a document under variable values [env] is
+   its denotation [denote]: arguments of fields and directives whose type the
+   schema gives by their coerced value, everything the walk cannot type
+   (unknown field, selections below an abstract type) by its syntax plus the
+   values of the variables that occur in it.  No proofs here. *)
 From Coq Require Import List NArith Bool.
 Import ListNotations.
 Open Scope N_scope.
 
 Section Norm.
-  Context {L cval mixed deco : Type}.
+  Context {L cval : Type}.
   Definition name := N.
   Definition ty := N.        (* input types *)
   Definition otype := N.     (* object types *)
-  Variable L_eqb : L -> L -> bool.
-  Variable cval_eqb : cval -> cval -> bool.
-  Variable mixed_vars : mixed -> list name.
-  Variable deco_vars : deco -> list name.
-  Variable synth_name : N -> name.                             (* "__pcv%d" *)
-  Variable field_def : otype -> name -> option (option otype). (* getFieldDef; Some (Some o): object-typed *)
-  Variable arg_ty : otype -> name -> name -> option ty.
-  Variable tc_obj : name -> option otype.                      (* type condition naming an object type *)
-  Variable lit_coerce : ty -> L -> option cval.                (* valueFromAST on a literal; None = nil *)
-  Variable var_coerce : ty -> cval -> option cval.             (* isValidInputValue + coerceValue *)
 
-  Inductive value := VVar (x : name) | VLit (l : L) | VMixed (m : mixed).
+  Inductive value :=
+  | VVar (x : name)
+  | VScalar (l : L)
+  | VList (vs : list value)
+  | VObj (fs : list (name * value)).
+
+  Fixpoint value_vars (v : value) : list name :=
+    match v with
+    | VVar x => [x]
+    | VScalar _ => []
+    | VList vs => flat_map value_vars vs
+    | VObj fs => flat_map (fun f => value_vars (snd f)) fs
+    end.
+
+  Definition dir := (name * list (name * value))%type.
 
   Inductive sel :=
-  | Field (d : deco) (nm : name) (args : list (name * value)) (sub : list sel)
-  | Inline (d : deco) (tc : option name) (sub : list sel)
-  | Spread (d : deco) (f : name).
+  | Field (alias : option name) (nm : name) (args : list (name * value)) (dirs : list dir) (sub : list sel)
+  | Inline (tc : option name) (dirs : list dir) (sub : list sel)
+  | Spread (f : name) (dirs : list dir).
 
-  Definition value_vars (v : value) : list name :=
-    match v with VVar x => [x] | VLit _ => [] | VMixed m => mixed_vars m end.
+  Definition args_vars (args : list (name * value)) : list name := flat_map (fun a => value_vars (snd a)) args.
+  Definition dirs_vars (ds : list dir) : list name := flat_map (fun d => args_vars (snd d)) ds.
 
   Fixpoint sel_vars (s : sel) : list name :=
     match s with
-    | Field d _ args sub => deco_vars d ++ flat_map (fun a => value_vars (snd a)) args ++ flat_map sel_vars sub
-    | Inline d _ sub => deco_vars d ++ flat_map sel_vars sub
-    | Spread d _ => deco_vars d
+    | Field _ _ args ds sub => args_vars args ++ dirs_vars ds ++ flat_map sel_vars sub
+    | Inline _ ds sub => dirs_vars ds ++ flat_map sel_vars sub
+    | Spread _ ds => dirs_vars ds
     end.
 
   Fixpoint spreads (s : sel) : bool :=
     match s with
-    | Field _ _ _ sub => existsb spreads sub
+    | Field _ _ _ _ sub => existsb spreads sub
     | Inline _ _ sub => existsb spreads sub
     | Spread _ _ => true
     end.
 
+  Variable value_eqb : value -> value -> bool.                  (* equal printed text *)
+  Variable cval_eqb : cval -> cval -> bool.                     (* reflect.DeepEqual *)
+  Variable synth_name : N -> name.                              (* "__pcv%d" *)
+  Variable field_def : otype -> name -> option (option otype).  (* getFieldDef; Some (Some o): object-typed *)
+  Variable arg_ty : otype -> name -> name -> option ty.
+  Variable dir_arg_ty : name -> name -> option ty.              (* directive argument types *)
+  Variable tc_obj : name -> option otype.                       (* type condition naming an object type *)
+  Variable coerce : ty -> value -> (name -> option cval) -> option cval.   (* valueFromAST; None = nil *)
+  Variable lit_valid : ty -> value -> bool.                     (* isValidLiteralValue *)
+  Variable var_coerce : ty -> cval -> option cval.              (* isValidInputValue + coerceValue *)
+
+  Definition no_vars : name -> option cval := fun _ => None.
+
   (* ---- normalisation ---- *)
 
-  Record nst := mkN { n_counter : N; n_shared : list (ty * L * name); n_synth : list (name * (ty * cval)) }.
+  Record nst := mkN { n_counter : N; n_shared : list (ty * value * name); n_synth : list (name * (ty * cval)) }.
 
   Variable taken : list name.     (* variableNames(doc) *)
-  Variable fuel : nat.            (* bound on the nextName loop *)
 
   Definition mem (x : name) (l : list name) : bool := existsb (N.eqb x) l.
 
+  (* nextName: the loop ends because only finitely many names are taken *)
   Fixpoint next_name (f : nat) (k : N) : option (name * N) :=
     match f with
     | O => None
     | S f' => if mem (synth_name k) taken then next_name f' (k + 1) else Some (synth_name k, k + 1)
     end.
 
-  Definition find_shared (t : ty) (l : L) (sh : list (ty * L * name)) : option name :=
-    match find (fun e => (fst (fst e) =? t) && L_eqb (snd (fst e)) l) sh with
+  Definition name_fuel : nat := S (length taken).
+
+  Definition find_shared (t : ty) (v : value) (sh : list (ty * value * name)) : option name :=
+    match find (fun e => (fst (fst e) =? t) && value_eqb (snd (fst e)) v) sh with
     | Some e => Some (snd e)
     | None => None
     end.
 
+  (* the part of tryExtract that depends on the value and its position only:
+     the value handed to the synthetic variable, if the literal is extracted *)
+  Definition extract_value (t : ty) (v : value) : option cval :=
+    match value_vars v with
+    | _ :: _ => None                                   (* a variable somewhere in the value *)
+    | [] =>
+      if negb (lit_valid t v) then None
+      else match coerce t v no_vars with
+           | None => None
+           | Some c => match var_coerce t c with
+                       | Some c' => if cval_eqb c' c then Some c else None
+                       | None => None
+                       end
+           end
+    end.
+
   (* tryExtract *)
   Definition try_extract (st : nst) (t : ty) (v : value) : nst * value :=
-    match v with
-    | VLit l =>
-      match lit_coerce t l with
-      | None => (st, v)
-      | Some c =>
-        match var_coerce t c with
-        | Some c' =>
-          if cval_eqb c' c then
-            match find_shared t l (n_shared st) with
-            | Some x => (st, VVar x)
-            | None =>
-              match next_name fuel (n_counter st) with
-              | None => (st, v)
-              | Some (x, k') => (mkN k' ((t, l, x) :: n_shared st) (n_synth st ++ [(x, (t, c))]), VVar x)
-              end
-            end
-          else (st, v)
+    match extract_value t v with
+    | None => (st, v)
+    | Some c =>
+      match find_shared t v (n_shared st) with
+      | Some x => (st, VVar x)
+      | None =>
+        match next_name name_fuel (n_counter st) with
         | None => (st, v)
+        | Some (x, k') => (mkN k' ((t, v, x) :: n_shared st) (n_synth st ++ [(x, (t, c))]), VVar x)
         end
       end
-    | _ => (st, v)
     end.
 
   Fixpoint norm_args (st : nst) (o : otype) (nm : name) (args : list (name * value)) : nst * list (name * value) :=
@@ -123,25 +153,27 @@ Section Norm.
                   (st2, s' :: r')
       end.
 
-  (* normalizeSelectionSet / normalizeField *)
+  Definition cond_type (o : otype) (tc : option name) : otype :=
+    match tc with
+    | Some n => match tc_obj n with Some x => x | None => o end
+    | None => o
+    end.
+
+  (* normalizeSelectionSet / normalizeField: directive arguments are never touched *)
   Fixpoint norm_sel (o : otype) (st : nst) (s : sel) {struct s} : nst * sel :=
     match s with
-    | Field d nm args sub =>
+    | Field al nm args ds sub =>
       match field_def o nm with
       | None => (st, s)
       | Some ft =>
         let '(st1, args') := norm_args st o nm args in
         match ft with
-        | Some o' => let '(st2, sub') := norm_list (norm_sel o') st1 sub in (st2, Field d nm args' sub')
-        | None => (st1, Field d nm args' sub)
+        | Some o' => let '(st2, sub') := norm_list (norm_sel o') st1 sub in (st2, Field al nm args' ds sub')
+        | None => (st1, Field al nm args' ds sub)
         end
       end
-    | Inline d tc sub =>
-      let o' := match tc with
-                | Some n => match tc_obj n with Some x => x | None => o end
-                | None => o
-                end in
-      let '(st1, sub') := norm_list (norm_sel o') st sub in (st1, Inline d tc sub')
+    | Inline tc ds sub =>
+      let '(st1, sub') := norm_list (norm_sel (cond_type o tc)) st sub in (st1, Inline tc ds sub')
     | Spread _ _ => (st, s)
     end.
 
@@ -151,48 +183,70 @@ Section Norm.
   Definition normalize (root : otype) (sels : list sel) : nst * list sel :=
     if existsb spreads sels then (n_init, sels) else norm_list (norm_sel root) n_init sels.
 
+  (* ---- what the rewriting amounts to: a substitution at typed argument positions ---- *)
+
+  Definition sub_value (st : nst) (t : ty) (v : value) : value :=
+    match extract_value t v with
+    | None => v
+    | Some _ => match find_shared t v (n_shared st) with Some x => VVar x | None => v end
+    end.
+
+  Definition sub_args (st : nst) (o : otype) (nm : name) (args : list (name * value)) : list (name * value) :=
+    map (fun a => (fst a, match arg_ty o nm (fst a) with Some t => sub_value st t (snd a) | None => snd a end)) args.
+
+  Fixpoint sub_sel (st : nst) (o : otype) (s : sel) {struct s} : sel :=
+    match s with
+    | Field al nm args ds sub =>
+      match field_def o nm with
+      | None => s
+      | Some (Some o') => Field al nm (sub_args st o nm args) ds (map (sub_sel st o') sub)
+      | Some None => Field al nm (sub_args st o nm args) ds sub
+      end
+    | Inline tc ds sub => Inline tc ds (map (sub_sel st (cond_type o tc)) sub)
+    | Spread _ _ => s
+    end.
+
   (* ---- denotation ---- *)
 
   Definition renv := list (name * option cval).
   Definition restrict (env : name -> option cval) (xs : list name) : renv := map (fun x => (x, env x)) xs.
 
   Inductive darg := DVal (c : option cval) | DArgOpaque (v : value) (r : renv).
+  Definition ddir := (name * list (name * darg))%type.
 
   Inductive dsel :=
-  | DField (d : deco) (dr : renv) (nm : name) (args : list (name * darg)) (sub : list dsel)
-  | DInline (d : deco) (dr : renv) (tc : option name) (sub : list dsel)
-  | DSpread (d : deco) (dr : renv) (f : name)
+  | DField (alias : option name) (nm : name) (args : list (name * darg)) (dirs : list ddir) (sub : list dsel)
+  | DInline (tc : option name) (dirs : list ddir) (sub : list dsel)
+  | DSpread (f : name) (dirs : list ddir)
   | DOpaque (s : sel) (r : renv).
 
   Definition denote_arg (env : name -> option cval) (ot : option ty) (v : value) : darg :=
-    match ot, v with
-    | Some t, VLit l => DVal (lit_coerce t l)
-    | Some t, VVar x => DVal (env x)
-    | _, _ => DArgOpaque v (restrict env (value_vars v))
+    match ot with
+    | Some t => DVal (coerce t v env)
+    | None => DArgOpaque v (restrict env (value_vars v))
     end.
+
+  Definition denote_dir (env : name -> option cval) (d : dir) : ddir :=
+    (fst d, map (fun a => (fst a, denote_arg env (dir_arg_ty (fst d) (fst a)) (snd a))) (snd d)).
 
   Definition opaque (env : name -> option cval) (s : sel) : dsel := DOpaque s (restrict env (sel_vars s)).
 
   Fixpoint denote (env : name -> option cval) (o : otype) (s : sel) {struct s} : dsel :=
     match s with
-    | Field d nm args sub =>
+    | Field al nm args ds sub =>
       match field_def o nm with
       | None => opaque env s
       | Some ft =>
-        DField d (restrict env (deco_vars d)) nm
+        DField al nm
                (map (fun a => (fst a, denote_arg env (arg_ty o nm (fst a)) (snd a))) args)
+               (map (denote_dir env) ds)
                match ft with
                | Some o' => map (denote env o') sub
                | None => map (opaque env) sub
                end
       end
-    | Inline d tc sub =>
-      let o' := match tc with
-                | Some n => match tc_obj n with Some x => x | None => o end
-                | None => o
-                end in
-      DInline d (restrict env (deco_vars d)) tc (map (denote env o') sub)
-    | Spread d f => DSpread d (restrict env (deco_vars d)) f
+    | Inline tc ds sub => DInline tc (map (denote_dir env) ds) (map (denote env (cond_type o tc)) sub)
+    | Spread f ds => DSpread f (map (denote_dir env) ds)
     end.
 
   (* the variable values the executor computes for the normalised operation:
